@@ -47,6 +47,8 @@ type e3Spec map[string]e3Test
 var e3Files = map[string][]string{
 	"a_test.go": {"TestA", "TestAB", "TestSub", "Test1", "FuzzA"},
 	"b_test.go": {"TestB", "TestNoSnap"},
+	// a test file whose own name contains ".snap": its snapshot file is c.snapshot_test.snap
+	"c.snapshot_test.go": {"TestC"},
 }
 
 type e3Worker struct {
